@@ -532,3 +532,56 @@ func VF_Doc_C04() {
 	}
 	vf.Assert(docInv(a.doc) && docInv(b.doc), "L3 invariants after the delete")
 }
+
+// VF_Doc_EmptiedArray (C04, C01): every element of a document array is deleted
+// on one replica while the other, not yet knowing, inserts behind some of those
+// elements (one or two inserts, positions chosen by the solver, the second at or
+// next to the first).  A container that looks empty is not a fresh one: its
+// tombstones are still the anchors of concurrent inserts.  Both replicas end
+// with the same array, holding exactly the inserted elements.
+func VF_Doc_EmptiedArray() {
+	vf.HashAbstract(true)
+	a, b := vfNewDoc("a"), vfNewDoc("b")
+	vf.Assume(a.doc.GetCUID() != b.doc.GetCUID())
+	vfDocBase(a, b) // "arr": ["a0","a1"]
+	_, ed := child(a.doc, "arr").DeleteManyInArray(0, 2)
+	vf.Assert(ed == nil, "delete succeeds")
+	if vf.Choice("reader", 2) == 1 {
+		_ = a.doc.ToJSON()
+	}
+	p0 := vf.Int("b.pos0", 0, 2)
+	_, e0 := child(b.doc, "arr").InsertToArray(p0, "ib0")
+	two := vf.Choice("second-insert", 2) == 1
+	if two {
+		p1 := vf.Int("b.pos1", 0, 3)
+		_, e1 := child(b.doc, "arr").InsertToArray(p1, "ib1")
+		vf.Assert(e1 == nil, "insert succeeds")
+	}
+	vf.Assert(e0 == nil, "insert succeeds")
+	want := child(b.doc, "arr").ToJSON() // b's own view without the survivors a0, a1
+	opsA, opsB := a.flush(), b.flush()
+	if vf.Choice("b-ops-one-by-one", 2) == 1 && two {
+		a.receive(opsB[:1])
+		a.receive(opsB[1:])
+	} else {
+		a.receive(opsB)
+	}
+	b.receive(opsA)
+	vf.Reach("exchanged")
+	ja := a.doc.ToJSON().(map[string]interface{})["arr"].([]interface{})
+	jb := b.doc.ToJSON().(map[string]interface{})["arr"].([]interface{})
+	vf.Assert(jsonDeepEq(ja, jb), "C01/C04 both replicas show the same array")
+	n := 1
+	if two {
+		n = 2
+	}
+	vf.Assert(len(jb) == n, "C04 exactly the inserted elements are present")
+	var ins []interface{}
+	for _, v := range want.([]interface{}) {
+		if v == "ib0" || v == "ib1" {
+			ins = append(ins, v)
+		}
+	}
+	vf.Assert(jsonDeepEq(jb, ins), "C04 the inserted elements keep the order their author saw")
+	vf.Assert(docInv(a.doc) && docInv(b.doc), "L3 invariants")
+}
